@@ -373,6 +373,26 @@ def rule_vecdeque(ck):
     zeros = [d for d in sd if d[0] == "assign" and d[2]["r"] == "use" and op_const(d[2]["op"]) == 0]
     ok = len(rems) == 1 and len(zeros) == 1 and _root(f, rems[0][2]["b"]) == C
     ck.ob("table.vecdeque_ring", "S=head%cap-or-0", ok, f"{len(rems)} remainder defs, {len(zeros)} zero defs", f.loc())
+    # the indexes computed from cap are applied to the fetched buffer: that buffer must hold cap elements of the same cap
+    rd = [c for c in f.calls() if c.name.endswith("debugger::read_memory_by_pid")]
+    okb = False
+    d = f"{len(rd)} reads"
+    if len(rd) == 1:
+        ln = expr_of(f, rd[0].args[2], depth=4)
+        ds_ = defs_of(f, op_local(rd[0].args[2])) if op_local(rd[0].args[2]) is not None else []
+        facs = set()
+        for kind_, bb_, x_ in ds_:
+            if kind_ == "assign" and x_["r"] == "bin" and x_["op"].startswith("Mul"):
+                facs |= {_root(f, x_["a"]), _root(f, x_["b"])}
+            if kind_ == "assign" and x_["r"] == "field" or kind_ == "assign" and x_["r"] == "use":
+                l2 = (x_.get("op", {}).get("p") or [None])[0] if x_["r"] == "use" else None
+                if l2 is not None:
+                    for k3, b3, x3 in defs_of(f, l2):
+                        if k3 == "assign" and x3["r"] == "bin" and x3["op"].startswith("Mul"):
+                            facs |= {_root(f, x3["a"]), _root(f, x3["b"])}
+        okb = C in facs
+        d = f"read size factors {sorted(str(x) for x in facs)}, cap = {C}"
+    ck.ob("table.vecdeque_ring", "fetched-buffer-holds-the-same-cap-elements", okb, d, f.loc(rd[0].bb) if rd else f.loc(), what="the ring indexes are computed from one capacity and applied to a buffer fetched for another: elements are read past the fetched bytes (panic) or from the wrong slots")
     # len <= cap (a ring buffer cannot hold more than its capacity)
     ld = defs_of(f, L) if isinstance(L, int) else []
     okl = any(d[0] == "call" and re.search(r"(::min|>::min)$", d[2].name) and C in {_root(f, a) for a in d[2].args} for d in ld)
@@ -677,7 +697,25 @@ def rule_display_caps(ck):
         ck.ob("table.display_caps", f"{g}/upper-bound>=10000", hv is not None and hv >= 10_000, f"upper bound {hv}", f.loc(), what=f"{g} truncates collections the debugger used to show completely (nothing may be missing)")
 
 
+def rule_tls_thread(ck):
+    """a thread-local is read from the block of the thread in focus"""
+    prog = ck.prog
+    ck.rule("mpt.tls_thread", "DW_OP_form_tls_address / GNU_push_tls_address is resolved for the thread whose variable is being read: the evaluator hands ecx.pid_on_focus() to RequirementsResolver::resolve_tls, which passes that same thread id to TraceeCtl::tls_addr (libthread_db looks the block up per thread)")
+    rs = [f for p, f in prog.fns.items() if p.endswith("RequirementsResolver::resolve_tls")]
+    if not ck.ob("mpt.tls_thread", "resolve_tls/exists", len(rs) == 1, "", ""):
+        return
+    r = rs[0]
+    ck.saw(r)
+    ta = [c for c in r.calls() if c.name.endswith("TraceeCtl::tls_addr")]
+    ok = len(ta) == 1 and len(ta[0].args) >= 2 and expr_of(r, ta[0].args[1]) == ("arg", 2) and "Pid" in r.local_ty(2)
+    ck.ob("mpt.tls_thread", "resolve_tls/looks-up-the-thread-it-was-given", ok, f"tls_addr(.., {expr_str(expr_of(r, ta[0].args[1]), 5) if ta else None}, ..)", r.loc(), what="thread-locals are always read from one fixed thread's block: with another thread in focus the value shown is not the one that thread holds")
+    callers = who_calls(prog, lambda c: c.name.endswith("RequirementsResolver::resolve_tls"))
+    ok = bool(callers) and all("pid_on_focus(" in expr_str(expr_of(c.fn, c.args[1], depth=6), 5) for c in callers)
+    ck.ob("mpt.tls_thread", "evaluator/asks-for-the-thread-in-focus", ok, f"{[expr_str(expr_of(c.fn, c.args[1], depth=6), 5) for c in callers]}", callers[0].fn.loc(callers[0].bb) if callers else "")
+
+
 def run(ck):
+    rule_tls_thread(ck)
     rule_display_caps(ck)
     rule_btree_walk(ck)
     rule_discr_sign(ck)
